@@ -72,7 +72,15 @@ Theorem C18_nested_from_leave_refuted :
 Proof. exact nested_from_leave_refuted. Qed.
 Print Assumptions C18_nested_from_leave_refuted.
 
-(* KNOWN FINDING C18-concurrent: nothing makes check-then-act atomic; two threads can both be allowed from
+(* requests made concurrently from several threads: the engine performs one transition at a time - source check, leave, the assignment
+   of the current state, enter and the called event are under one reentrant lock (Gen/Machines.v, regenerated from
+   StateMachine._perform_transition; that a `with lock:` body is atomic with respect to other threads is trusted, as for C06's
+   allocator).  Every concurrent execution is therefore a sequence of whole transitions, to which the theorems above apply. *)
+Theorem C18_transitions_are_locked : engine_transition_locked = true.
+Proof. reflexivity. Qed.
+Print Assumptions C18_transitions_are_locked.
+
+(* why the lock is needed (D75, formerly the open finding C18-concurrent): the same steps WITHOUT it - two threads can both be allowed from
    the same state, the state fires its leave event twice and two states end up active *)
 Theorem C18_concurrent_refuted :
   let t name := {| t_pc := PCheck; t_name := name; t_dst := 0; t_old := 0 |} in
